@@ -76,15 +76,15 @@ theorem loop_term_emitted {V} (cond : Tag → Bool) (body : Tag → V) (p : Tag)
 
 /-- **the combinator step keeps reading while an instance iterates.** Once the first token of instance `p` has put
     `p` on the port's checklist, the step keeps creating `get` tasks for the port — even after the port's
-    termination token (status COMPLETED) — until `IterationTerminationToken(p)` arrives. -/
+    termination token (status COMPLETED; the step's `failed` flag not set) — until `IterationTerminationToken(p)` arrives. -/
 theorem loop_combinator_step_waits (s : CSt) (es : List CEv) (p : Tag) (hp : p ∈ s.checklist) (hr : s.reading = true)
-    (hes : ∀ e ∈ es, e.benign p) :
+    (hf : s.failed = false) (hes : ∀ e ∈ es, e.benign p) :
     p ∈ (es.foldl cstep s).checklist ∧ (es.foldl cstep s).reading = true := by
   induction es generalizing s with
   | nil => exact ⟨hp, hr⟩
   | cons e es ih =>
-    have h := cstep_keeps s e p hp hr (hes e (by simp))
-    exact ih (cstep s e) h.1 h.2 (fun x hx => hes x (List.mem_cons_of_mem _ hx))
+    have h := cstep_keeps s e p hp hr hf (hes e (by simp))
+    exact ih (cstep s e) h.1 h.2.1 h.2.2 (fun x hx => hes x (List.mem_cons_of_mem _ hx))
 
 /-- the first token of an instance enters the checklist (unless its parent tag is already there: a back edge) -/
 theorem checklist_enters (s : CSt) (p : Tag) (hr : s.reading = true) (h : p.dropLast ∉ s.checklist) :
@@ -92,14 +92,21 @@ theorem checklist_enters (s : CSt) (p : Tag) (hr : s.reading = true) (h : p.drop
   unfold cstep
   simp only [hr, Bool.not_true, Bool.false_eq_true, if_false]
   by_cases hp : p ∈ s.checklist
-  · simp [Gen.loopChecklistAdds, h, hp]
-  · simp [Gen.loopChecklistAdds, h, hp]
+  · simp [cpre, Gen.loopChecklistAdds, h, hp]
+  · simp [cpre, Gen.loopChecklistAdds, h, hp]
 
 /-- and the step stops reading a port exactly when its termination token was taken and nothing is left on the checklist -/
 theorem checklist_stops (s : CSt) (st : Status) (hr : s.reading = true) (hc : s.checklist = []) :
     (cstep s (.term st)).reading = false := by
   unfold cstep
-  simp [hr, hc, Gen.loopKeepsReading]
+  simp [cpre, hr, hc, Gen.loopKeepsReading]
+
+/-- since fix 4e89c00: after its own FAILED / CANCELLED termination token the port is not read again, whatever is on the checklist
+    (no further combination can be produced) -/
+theorem checklist_stops_on_failure (s : CSt) (st : Status) (hr : s.reading = true) (hst : st = .failed ∨ st = .cancelled) :
+    (cstep s (.term st)).reading = false := by
+  unfold cstep
+  rcases hst with rfl | rfl <;> simp [cpre, hr, Gen.loopKeepsReading, Gen.loopFails]
 
 /-- non-vacuity: 12 iterations arriving in reverse order, iteration termination first -/
 example (evs : List (Ev Nat))
